@@ -133,6 +133,17 @@ def harness(tier, seed):
     for k_ in (2, 3, 5, 11, 23):
         programs.append((f"coarse-decay/{k_}-rows", lin_eq, zero_ctrl, p0, np.array([1.0, -2.0]), 1, 50.0, k_))
         programs.append((f"coarse-integrator/{k_}-rows", ctrl_eq, const_ctrl, np.array([0.5]), np.array([0.0, 1.0]), 1, 40.0, k_))
+    # closed loops x' = x + u, u = -k x (state-dependent control, stiff enough for the integrator to reject steps):
+    # x(t) = x0 exp((1 - k) t), compared at 0.5 % of |x0| (the unchanged tree stays below 0.05 %)
+    def plant_eq(state, _, control, out):
+        out[0] = state[0] + control[0]
+        out[1] = -state[1]
+
+    def prop_ctrl(state, t, p, out):
+        out[0] = -p[0] * state[0]
+    for k_ in (2.0, 5.0, 8.0, 12.0):
+        programs.append((f"closed-loop/k={k_}", plant_eq, prop_ctrl, np.array([k_]), np.array([1.0, 0.5]), 1, 4.0))
+        programs.append((f"closed-loop/k={k_}b", plant_eq, prop_ctrl, np.array([k_]), np.array([-3.0, 2.0]), 1, 4.0))
     default_steps = steps
     for prog in programs:
         (name, eq, ctrl, params, start, cd, max_time) = prog[:7]
@@ -176,6 +187,12 @@ def harness(tier, seed):
             err = max(np.max(np.abs(ode[:, 0] - 0.5 * t)), np.max(np.abs(ode[:, 1] - np.exp(-t))))
             if err > 1e-2:
                 viol.append(("run_ode/analytic-integrator", info, f"max abs error {err}"))
+        if name.startswith("closed-loop/") and ode.shape[0] == steps:
+            t = ode[:, -1]
+            k_ = float(params[0])
+            err = max(np.max(np.abs(ode[:, 0] - s0[0] * np.exp((1.0 - k_) * t))), np.max(np.abs(ode[:, 1] - s0[1] * np.exp(-t))))
+            if err > 5e-3 * float(np.max(np.abs(s0))):
+                viol.append(("run_ode/analytic-closed-loop", info, f"max abs error {err} (start {s0.tolist()})"))
         if len(samples) < 3:
             samples.append(info)
     # ---- multi_run_ode: test and training starting states get their own numbers of rows and time limits, every
